@@ -22,7 +22,8 @@ def run(tier, replay=None):
         ("MC_Transport", "MC_Transport_q3.cfg", {"workers": 8, "heap": "6g"}, "pass"),
         ("MC_Transport", "MC_Transport_t.cfg", {"workers": 8, "heap": "6g"}, "pass"),
     ])
-    groups = ["G_bcast_fixed", "G_bcast_eph", "G_udp_eph", "G_tcp_eph", "G_mixed_fixed", "G_mixed_eph"]
+    # (G_flood_eph: up to 140 datagrams the broadcast filter ignores ahead of the genuine reply - "keeps waiting for S until its deadline")
+    groups = ["G_bcast_fixed", "G_bcast_eph", "G_udp_eph", "G_tcp_eph", "G_mixed_fixed", "G_mixed_eph", "G_flood_eph"]
     if tier == "thorough":
         groups += ["G_udp_fixed"]
     n = 36 if tier == "quick" else 400
